@@ -355,12 +355,17 @@ func run(t0 time.Time) int {
 
 	// collect obligations of this property
 	var jobs []job
+	lm := loadLabelMap(*flagVerif)
 	for _, r := range results {
 		spec := g.specs.Funcs[r.Key]
 		for _, o := range r.Obls {
 			if prop != "" {
-				if o.Props != nil {
-					if !hasProp(o.Props, prop) {
+				eff := o.Props
+				if eff == nil && o.Expect == "" {
+					eff = lm.propsFor(o)
+				}
+				if eff != nil {
+					if !hasProp(eff, prop) {
 						continue
 					}
 				} else if spec != nil && !hasProp(spec.Props, prop) {
@@ -772,4 +777,36 @@ func rerunReplay(path string) int {
 	}
 	fmt.Println("replay test passes on the current tree")
 	return 0
+}
+
+type labelMap struct {
+	Kinds  map[string][]string `json:"kinds"`
+	Labels map[string][]string `json:"labels"`
+}
+
+func loadLabelMap(verif string) *labelMap {
+	lm := &labelMap{Kinds: map[string][]string{}, Labels: map[string][]string{}}
+	if b, err := os.ReadFile(filepath.Join(verif, "props", "labels.json")); err == nil {
+		json.Unmarshal(b, lm)
+	}
+	return lm
+}
+
+// propsFor: default property tags of an obligation from its kind or its clause label (nil = function-level props)
+func (lm *labelMap) propsFor(o *Obl) []string {
+	if ps, ok := lm.Kinds[o.Kind]; ok {
+		return ps
+	}
+	switch o.Kind {
+	case "post", "call.pre", "at":
+		l := o.Label
+		if k := strings.LastIndex(l, ":"); k >= 0 {
+			l = l[k+1:]
+		}
+		l = strings.TrimPrefix(l, "conform:")
+		if ps, ok := lm.Labels[l]; ok {
+			return ps
+		}
+	}
+	return nil
 }
